@@ -67,7 +67,7 @@ impl Prop for C05 {
         prop_oneof![40 => small, 1 => large].boxed()
     }
     fn random_cases(&self, tier: Tier) -> u32 {
-        tier.pick(20_000, 400_000)
+        tier.pick(150_000, 1_500_000)
     }
     fn check(&self, case: &GraphCase) -> Outcome {
         let mut out = Outcome::new();
